@@ -714,6 +714,26 @@ def _check_maximum(ctx: Ctx, fun) -> None:
             jacs_l = [k for k, v in lists.items() if f"{vn}.jac" in asg.get(v, {v})]
             ok = len(lists) == 2 and len(vals_l) == 1 and len(jacs_l) == 1 and vals_l != jacs_l
     if not ok:
+        # form B: two list comprehensions over (var_0, var_1): vals = [t.val if isinstance(t, AdArray) else t for t in args]
+        from ..core.astutil import single_assign_value
+        cands = {}
+        for st in walk_local(fn):
+            if isinstance(st, ast.Assign) and len(st.targets) == 1 and isinstance(st.targets[0], ast.Name) and isinstance(st.value, ast.ListComp) \
+                    and len(st.value.generators) == 1:
+                gen = st.value.generators[0]
+                it = gen.iter
+                if isinstance(it, ast.Name):
+                    it = single_assign_value(fn, it.id) or it
+                if isinstance(it, (ast.List, ast.Tuple)) and [u(e_) for e_ in it.elts] == [p0, p1] and isinstance(gen.target, ast.Name):
+                    t = gen.target.id
+                    txt = u(st.value.elt)
+                    if f"{t}.val" in txt and f"{t}.jac" not in txt:
+                        cands["val"] = st.targets[0].id
+                    elif f"{t}.jac" in txt and f"{t}.val" not in txt:
+                        cands["jac"] = st.targets[0].id
+        if set(cands) == {"val", "jac"} and cands["val"] != cands["jac"]:
+            vals_l, jacs_l, ok = [cands["val"]], [cands["jac"]], True
+    if not ok:
         raise Undecided("maximum: value/Jacobian collection loop not of the recognised form")
     V, J = vals_l[0], jacs_l[0]
     ctx.check("R4", True, fun, q, fn, "values and Jacobians are collected in lock-step from [var_0, var_1]", construct="maximum: collection",
